@@ -169,6 +169,34 @@ def run(chk):
         if dev > 2e3 * eps or list(d1.times) != list(d2.times):
             chk.fail("methods-disagree", f"MeanFieldTempo and compute_dynamics_with_field differ by {dev:.2e}", info)
 
+        # the Heun rule read off the reported trajectory: a_{k+1} = a_k + dt/2 (f(t_k, rho_k, a_k) + f(t_{k+1}, rho_{k+1}, a_k + dt f(t_k, rho_k, a_k)))
+        def heun_residual(dyn):
+            f_, ts_ = [complex(x) for x in dyn.fields], list(dyn.times)
+            st_ = [[np.array(dyn.system_dynamics[i].states[k]) for i in range(nsys)] for k in range(len(ts_))]
+            worst_ = 0.0
+            for k in range(len(ts_) - 1):
+                k1 = eom(ts_[k], st_[k], f_[k])
+                k2 = eom(ts_[k + 1], st_[k + 1], f_[k] + dt * k1)
+                worst_ = max(worst_, abs(f_[k + 1] - (f_[k] + dt / 2 * (k1 + k2))))
+            return worst_
+        # ... also when the SAME MeanFieldSystem / systems / baths objects are used again with other initial states and field
+        rhos2 = [np.eye(dm, dtype=complex) / dm - 0.25 * np.diag([1] + [0] * (dm - 2) + [-1]) for dm in dims]
+        try:
+            d4 = quiet(oqupy.MeanFieldTempo(mfs, baths, par, rhos2, a0, start).compute, start + N * dt, progress_type="silent")
+            d5 = quiet(oqupy.compute_dynamics_with_field, mfs, a0, process_tensor_list=pts, start_time=start, initial_state_list=rhos2,
+                       subdiv_limit=None, progress_type="silent")
+        except Exception as ex:
+            chk.fail("meanfield-raises", f"mean-field drivers raise {ex!r} when the MeanFieldSystem is used a second time", info)
+            continue
+        chk.search_cases += 2
+        for nm_, dy_ in (("MeanFieldTempo", d1), ("compute_dynamics_with_field", d2), ("MeanFieldTempo, MeanFieldSystem used again with other initial states", d4),
+                         ("compute_dynamics_with_field, MeanFieldSystem used again with other initial states", d5)):
+            res_ = heun_residual(dy_)
+            if res_ > 1e-10:
+                chk.fail("heun-residual", f"{nm_}: the reported fields are not the Heun update from the reported states and times at both ends of each step "
+                         f"(residual {res_:.2e})", dict(info, run=nm_))
+                break
+
     # ---- systems that do not depend on the field: each evolves exactly as in a plain TEMPO run / plain compute_dynamics with
     # the same (explicitly time-dependent) Hamiltonian, rates and Lindblad operators ---------------------------------------
     for it in range(9 if (thorough or chk.disagreements or chk.broken) else 3):
